@@ -612,3 +612,565 @@ Qed.
 
 Lemma run_inv ops st : run ops = Some st -> inv st (spec_of ops).
 Proof. apply run_from_inv. apply inv_init. Qed.
+
+(* ------------------------------------------------------------------ the containers implement the specification *)
+
+Lemma global_flat_spec st sp : inv st sp -> global_flat st = spec_global sp.
+Proof.
+  intros I. unfold global_flat, spec_global.
+  rewrite (inv_fresh _ _ I 0 (inv_len _ _ I)), (inv_root _ _ I), (inv_left _ _ I), (inv_right _ _ I).
+  reflexivity.
+Qed.
+
+Lemma view_spec st sp h :
+  inv st sp -> h_cont h < length (s_conts st) -> view st h = spec_wrap sp (hmid st h).
+Proof.
+  intros I Hh. unfold view, spec_wrap, hmid. cbn [fst snd].
+  rewrite (inv_fresh _ _ I _ Hh), (inv_left _ _ I), (inv_right _ _ I). reflexivity.
+Qed.
+
+Lemma find_related st sp k hid hs es :
+  inv st sp -> Forall2 (hrel st) hs es ->
+  option_map (view st) (find (handler_is k hid) hs) =
+  option_map (fun e => spec_wrap sp (snd e)) (find (spec_is k hid) es) /\
+  (find (handler_is k hid) hs = None <-> find (spec_is k hid) es = None).
+Proof.
+  intros I. induction 1 as [|h e hs es (H1 & H2 & H3) _ IH]; cbn [find]; [split; [reflexivity | tauto]|].
+  assert (E : handler_is k hid h = spec_is k hid e).
+  { unfold handler_is, spec_is. rewrite H1, H2. reflexivity. }
+  rewrite E. destruct (spec_is k hid e).
+  - cbn [option_map]. rewrite H2, (view_spec _ _ _ I H3). split; [reflexivity|]. split; discriminate.
+  - exact IH.
+Qed.
+
+Lemma orel_view st sp oh oe :
+  inv st sp -> orel st oh oe -> option_map (view st) oh = option_map (spec_wrap sp) oe.
+Proof.
+  intros I. destruct oh as [h|], oe as [v|]; cbn; try tauto.
+  intros [-> Hh]. rewrite (view_spec _ _ _ I Hh). reflexivity.
+Qed.
+
+Lemma lookup_spec st sp k hid :
+  inv st sp -> option_map (view st) (lookup st k hid) = spec_lookup sp k hid.
+Proof.
+  intros I. unfold lookup, spec_lookup.
+  destruct (find_related st sp k hid _ _ I (inv_handlers _ _ I)) as [Hv Hn].
+  destruct (find (handler_is k hid) (s_handlers st)) as [h|] eqn:Fh;
+    destruct (find (spec_is k hid) (sp_handlers sp)) as [e|] eqn:Fe; cbn [option_map] in *.
+  - exact Hv.
+  - destruct Hn as [_ Hn]. specialize (Hn eq_refl). discriminate.
+  - destruct Hn as [Hn _]. specialize (Hn eq_refl). discriminate.
+  - destruct k; [apply (orel_view _ _ _ _ I (inv_uc _ _ I)) | apply (orel_view _ _ _ _ I (inv_up _ _ I))].
+Qed.
+
+Lemma exchange_refines cli srv spc sps m :
+  inv cli spc -> inv srv sps -> exchange cli srv m = spec_exchange spc sps m.
+Proof.
+  intros Ic Is. destruct m; cbn [exchange spec_exchange];
+    rewrite (global_flat_spec _ _ Ic), (global_flat_spec _ _ Is), (lookup_spec _ _ _ _ Is); reflexivity.
+Qed.
+
+(* effective chain: every registered handler's flat list is left ++ groups ++ own ++ right *)
+Lemma handlers_effective st sp :
+  inv st sp ->
+  Forall2 (fun h e => fst e = h_kind h /\ fst (snd e) = (h_id h, h_stat h) /\
+                      c_flat (get_cont st (h_cont h)) = sp_left sp ++ snd (snd e) ++ sp_right sp)
+          (s_handlers st) (sp_handlers sp).
+Proof.
+  intros I. eapply Forall2_imp; [|apply (inv_handlers _ _ I)].
+  intros h e (H1 & H2 & H3). destruct e as [k v]. cbn [fst snd] in *. subst v. unfold hmid. cbn [fst snd].
+  rewrite (inv_fresh _ _ I _ H3), (inv_left _ _ I), (inv_right _ _ I). auto.
+Qed.
+
+Lemma handler_flats_spec st sp : inv st sp -> handler_flats st = spec_handler_flats sp.
+Proof.
+  intros I. unfold handler_flats, spec_handler_flats.
+  pose proof (handlers_effective _ _ I) as F.
+  induction F as [|h e hs es (H1 & H2 & H3) _ IH]; cbn [map]; [reflexivity|].
+  rewrite IH, H3. destruct e as [k [[i s] c]]. cbn in *. inversion H2. reflexivity.
+Qed.
+
+(* ------------------------------------------------------------------ message flows *)
+
+Ltac flow_cases h :=
+  unfold exchange_call, exchange_push, srv_call, srv_push, vetoes, code_not_found, code_conn_closed;
+  cbn zeta;
+  try (destruct h as [[[?hid ?hs] ?hc]|]);
+  repeat match goal with
+         | |- context [Z.eqb ?x 0] => let E := fresh "V" in destruct (Z.eqb x 0) eqn:E; cbn
+         end;
+  cbn.
+
+Ltac rewrite_V :=
+  repeat match goal with
+         | H : Z.eqb ?x 0 = _, H' : context [negb (Z.eqb ?x 0)] |- _ => rewrite H in H'
+         | H : Z.eqb ?x 0 = _ |- context [negb (Z.eqb ?x 0)] => rewrite H
+         end.
+
+Ltac forall_cases :=
+  repeat (apply Forall_cons || apply Forall_nil); cbn [fst snd];
+  first [reflexivity | exact I | left; reflexivity | right; eauto | eauto].
+
+Definition stages_nodupb (l : list stage) : bool := nodupb (map stage_id l).
+
+Lemma stage_id_inj a b : stage_id a = stage_id b -> a = b.
+Proof. destruct a, b; cbn; intros H; try reflexivity; discriminate. Qed.
+
+Lemma stages_nodupb_NoDup l : stages_nodupb l = true -> NoDup l.
+Proof.
+  unfold stages_nodupb. intros H. apply nodupb_NoDup in H.
+  apply NoDup_map_inv in H. exact H.
+Qed.
+
+Fixpoint increasingb (l : list nat) : bool :=
+  match l with
+  | a :: (b :: _) as r => Nat.ltb a b && increasingb r
+  | _ => true
+  end.
+
+Lemma increasingb_sorted l : increasingb l = true -> StronglySorted lt l.
+Proof.
+  induction l as [|a r IH]; [constructor|].
+  intros H. assert (Hr : increasingb r = true).
+  { destruct r; [reflexivity|]. cbn in H. apply andb_true_iff in H. apply H. }
+  specialize (IH Hr). constructor; [exact IH|].
+  destruct r as [|b r]; [constructor|].
+  cbn in H. apply andb_true_iff in H as [H1 _]. apply Nat.ltb_lt in H1.
+  inversion IH; subst. constructor; [exact H1|].
+  eapply Forall_impl; [|eassumption]. cbn. intros. lia.
+Qed.
+
+Definition all_inb (l seq : list stage) : bool :=
+  forallb (fun s => existsb (fun t => N.eqb (stage_id s) (stage_id t)) seq) l.
+
+Lemma all_inb_In l seq : all_inb l seq = true -> Forall (fun s => In s seq) l.
+Proof.
+  unfold all_inb. rewrite forallb_forall, Forall_forall. intros H s Hs.
+  specialize (H s Hs). apply existsb_exists in H as (t & Ht & E).
+  apply N.eqb_eq, stage_id_inj in E. subst. exact Ht.
+Qed.
+
+Definition ranks (pl : plan) : list nat := map (fun sc => stage_rank (fst sc)) pl.
+
+Lemma exchange_call_shape gc gs h :
+  let r := exchange_call gc gs h in
+  stages_nodupb (map fst (r_cli_prh r ++ r_cli r)) = true /\
+  stages_nodupb (map fst (r_srv_prh r ++ r_srv r)) = true /\
+  Forall (fun sc => snd sc = gc) (r_cli_prh r ++ r_cli r) /\
+  Forall (fun sc => snd sc = gs \/ exists hid hs, h = Some (hid, hs, snd sc)) (r_srv_prh r ++ r_srv r) /\
+  increasingb (ranks (r_cli r)) = true /\ increasingb (ranks (r_srv r)) = true /\
+  all_inb (map fst (r_cli r)) seq_call_caller = true /\
+  all_inb (map fst (r_srv r)) seq_call_callee = true /\
+  all_inb (map fst (r_cli_prh r ++ r_srv_prh r)) [PreReadHeader] = true.
+Proof. flow_cases h; repeat split; try reflexivity; forall_cases. Qed.
+
+Lemma exchange_push_shape gc gs h :
+  let r := exchange_push gc gs h in
+  stages_nodupb (map fst (r_cli_prh r ++ r_cli r)) = true /\
+  stages_nodupb (map fst (r_srv_prh r ++ r_srv r)) = true /\
+  Forall (fun sc => snd sc = gc) (r_cli_prh r ++ r_cli r) /\
+  Forall (fun sc => snd sc = gs \/ exists hid hs, h = Some (hid, hs, snd sc)) (r_srv_prh r ++ r_srv r) /\
+  increasingb (ranks (r_cli r)) = true /\ increasingb (ranks (r_srv r)) = true /\
+  all_inb (map fst (r_cli r)) seq_push_sender = true /\
+  all_inb (map fst (r_srv r)) seq_push_receiver = true /\
+  all_inb (map fst (r_cli_prh r ++ r_srv_prh r)) [PreReadHeader] = true.
+Proof. flow_cases h; repeat split; try reflexivity; forall_cases. Qed.
+
+(* which container is current at which stage: the global one up to and including the
+   header stage, the matched handler's own for the body stages; the reply stages use the
+   handler's once routing has happened, else the global one *)
+Definition current_ok (gs : list plugin) (h : option hview) (sc : stage * list plugin) : Prop :=
+  match fst sc with
+  | PreReadHeader | PostReadCallHeader | PostReadPushHeader => snd sc = gs
+  | PreReadCallBody | PostReadCallBody | PreReadPushBody | PostReadPushBody =>
+      exists hid hs, h = Some (hid, hs, snd sc)
+  | PreWriteReply | PostWriteReply =>
+      (exists hid hs, h = Some (hid, hs, snd sc) /\ vetoes PostReadCallHeader gs = false) \/
+      (snd sc = gs /\ (h = None \/ vetoes PostReadCallHeader gs = true))
+  | _ => False
+  end.
+
+Lemma exchange_call_current gc gs h :
+  let r := exchange_call gc gs h in Forall (current_ok gs h) (r_srv_prh r ++ r_srv r).
+Proof.
+  unfold current_ok. flow_cases h; repeat (apply Forall_cons || apply Forall_nil); cbn [fst snd];
+    unfold vetoes;
+    rewrite_V; cbn [negb];
+    first [reflexivity | solve [eauto] | left; solve [eauto] | right; solve [eauto]].
+Qed.
+
+Lemma exchange_push_current gc gs h :
+  let r := exchange_push gc gs h in Forall (current_ok gs h) (r_srv_prh r ++ r_srv r).
+Proof.
+  unfold current_ok. flow_cases h; repeat (apply Forall_cons || apply Forall_nil); cbn [fst snd];
+    first [reflexivity | solve [eauto]].
+Qed.
+
+(* ---- refusals ---- *)
+
+Ltac plan_member H :=
+  cbn in H; repeat (destruct H as [H|H]; [inversion H; subst; clear H|]); try contradiction.
+
+Lemma call_veto_blocks gc gs h :
+  let r := exchange_call gc gs h in
+  forall s c, In (s, c) (r_cli r ++ r_srv_prh r ++ r_srv r) ->
+    pre_handler s = true -> vetoes s c = true -> r_invoked r = [].
+Proof.
+  flow_cases h; intros s c Hin Hp Hv; try reflexivity; exfalso;
+    plan_member Hin; cbn in Hp; try discriminate; unfold vetoes in Hv;
+    rewrite_V; discriminate.
+Qed.
+
+Lemma push_veto_blocks gc gs h :
+  let r := exchange_push gc gs h in
+  forall s c, In (s, c) (r_cli r ++ r_srv_prh r ++ r_srv r) ->
+    pre_handler s = true -> vetoes s c = true -> r_invoked r = [].
+Proof.
+  flow_cases h; intros s c Hin Hp Hv; try reflexivity; exfalso;
+    plan_member Hin; cbn in Hp; try discriminate; unfold vetoes in Hv;
+    rewrite_V; discriminate.
+Qed.
+
+(* the handler runs at most once, and only the matched one *)
+Lemma call_invoked gc gs h :
+  let r := exchange_call gc gs h in
+  r_invoked r = [] \/ exists hid hs hc, h = Some (hid, hs, hc) /\ r_invoked r = [hid] /\ r_written r = true.
+Proof. flow_cases h; first [left; reflexivity | right; eauto 6]. Qed.
+
+Lemma push_invoked gc gs h :
+  let r := exchange_push gc gs h in
+  r_invoked r = [] \/ exists hid hs hc, h = Some (hid, hs, hc) /\ r_invoked r = [hid] /\ r_written r = true.
+Proof. flow_cases h; first [left; reflexivity | right; eauto 6]. Qed.
+
+(* a refusal on the caller's own side is the status of the call *)
+Lemma call_caller_veto_status gc gs h :
+  let r := exchange_call gc gs h in
+  forall s c, In (s, c) (r_cli r) -> caller_status_stage s = true -> vetoes s c = true ->
+    r_status r = verdict_of s c /\ r_status r <> 0%Z.
+Proof.
+  flow_cases h; intros s c Hin Hp Hv; plan_member Hin; cbn in Hp; try discriminate;
+    unfold vetoes in Hv;
+    rewrite_V; try discriminate;
+    (split; [reflexivity | apply Z.eqb_neq; first [assumption | apply negb_true_iff; assumption]]).
+Qed.
+
+Lemma push_caller_veto_status gc gs h :
+  let r := exchange_push gc gs h in
+  forall s c, In (s, c) (r_cli r) -> caller_status_stage s = true -> vetoes s c = true ->
+    r_status r = verdict_of s c /\ r_status r <> 0%Z.
+Proof.
+  flow_cases h; intros s c Hin Hp Hv; plan_member Hin; cbn in Hp; try discriminate;
+    unfold vetoes in Hv;
+    rewrite_V; try discriminate;
+    (split; [reflexivity | apply Z.eqb_neq; first [assumption | apply negb_true_iff; assumption]]).
+Qed.
+
+(* a refusal on the handling side before the handler reaches the caller, unless the caller's
+   own reply hooks refuse (their status then takes its place) or tear the session down *)
+Lemma call_callee_veto_status gc gs h :
+  let r := exchange_call gc gs h in
+  forall s c, In (s, c) (r_srv r) -> callee_status_stage s = true -> vetoes s c = true ->
+    vetoes PreReadHeader gc = false -> vetoes PostReadReplyHeader gc = false ->
+    vetoes PreReadReplyBody gc = false ->
+    r_status r = verdict_of s c /\ r_status r <> 0%Z.
+Proof.
+  flow_cases h; intros s c Hin Hp Hv H1 H2 H3; plan_member Hin; cbn in Hp; try discriminate;
+    unfold vetoes in Hv, H1, H2, H3;
+    rewrite_V; try discriminate;
+    (split; [reflexivity | apply Z.eqb_neq; first [assumption | apply negb_true_iff; assumption]]).
+Qed.
+
+(* pre-write refusal on the sending side: nothing is written *)
+Lemma call_prewrite_veto gc gs h :
+  vetoes PreWriteCall gc = true ->
+  let r := exchange_call gc gs h in
+  r_written r = false /\ r_srv_prh r = [] /\ r_srv r = [] /\ r_invoked r = [] /\
+  r_cli r = [(PreWriteCall, gc)] /\ r_status r = verdict_of PreWriteCall gc /\ r_status r <> 0%Z.
+Proof.
+  intros Hv. unfold exchange_call. rewrite Hv. cbn. repeat split.
+  apply vetoes_true. exact Hv.
+Qed.
+
+Lemma push_prewrite_veto gc gs h :
+  vetoes PreWritePush gc = true ->
+  let r := exchange_push gc gs h in
+  r_written r = false /\ r_srv_prh r = [] /\ r_srv r = [] /\ r_invoked r = [] /\
+  r_cli r = [(PreWritePush, gc)] /\ r_status r = verdict_of PreWritePush gc /\ r_status r <> 0%Z.
+Proof.
+  intros Hv. unfold exchange_push. rewrite Hv. cbn. repeat split.
+  apply vetoes_true. exact Hv.
+Qed.
+
+Lemma call_written_iff gc gs h : r_written (exchange_call gc gs h) = negb (vetoes PreWriteCall gc).
+Proof. unfold exchange_call. destruct (vetoes PreWriteCall gc); [reflexivity|]. cbn. destruct (sr_out _); [|reflexivity|reflexivity].
+  repeat match goal with |- context [if ?b then _ else _] => destruct b end; reflexivity. Qed.
+
+Lemma push_written_iff gc gs h : r_written (exchange_push gc gs h) = negb (vetoes PreWritePush gc).
+Proof. unfold exchange_push. destruct (vetoes PreWritePush gc); reflexivity. Qed.
+
+(* ------------------------------------------------------------------ traces follow plans *)
+
+Definition ev_le (e1 e2 : event) : Prop := stage_rank (snd e1) <= stage_rank (snd e2).
+
+Lemma SS_app {A} (R : A -> A -> Prop) a b :
+  StronglySorted R a -> StronglySorted R b -> (forall x y, In x a -> In y b -> R x y) ->
+  StronglySorted R (a ++ b).
+Proof.
+  induction a as [|x a IH]; cbn [app]; intros Ha Hb Hc; [exact Hb|].
+  inversion Ha; subst. constructor.
+  - apply IH; auto. intros; apply Hc; [right|]; assumption.
+  - apply Forall_app. split; [assumption|]. apply Forall_forall. intros y Hy. apply Hc; [left; reflexivity | exact Hy].
+Qed.
+
+Lemma SS_block s (t : list event) : (forall e, In e t -> snd e = s) -> StronglySorted ev_le t.
+Proof.
+  induction t as [|e t IH]; intros H; constructor.
+  - apply IH. intros; apply H; right; assumption.
+  - apply Forall_forall. intros y Hy. unfold ev_le. rewrite (H e), (H y); [lia | right; exact Hy | left; reflexivity].
+Qed.
+
+Lemma trace_sorted pl : StronglySorted lt (ranks pl) -> StronglySorted ev_le (trace_of pl).
+Proof.
+  induction pl as [|[s c] r IH]; cbn [ranks map]; intros H; [constructor|].
+  inversion H as [|? ? Hr Hall]; subst.
+  change (trace_of ((s, c) :: r)) with (fst (run_stage s c) ++ trace_of r).
+  apply SS_app.
+  - apply (SS_block s). intros e He. apply (run_stage_In _ _ _ He).
+  - apply IH. exact Hr.
+  - intros x y Hx Hy. unfold ev_le. destruct (run_stage_In _ _ _ Hx) as [-> _].
+    destruct (trace_In _ _ Hy) as (c' & Hin & _).
+    rewrite Forall_forall in Hall. cbn [fst] in Hall.
+    assert (stage_rank s < stage_rank (snd y)); [|lia].
+    apply Hall. unfold ranks. apply (in_map (fun sc => stage_rank (fst sc))) in Hin. exact Hin.
+Qed.
+
+Lemma trace_stages pl seq :
+  Forall (fun s => In s seq) (map fst pl) -> Forall (fun e : event => In (snd e) seq) (trace_of pl).
+Proof.
+  intros H. apply Forall_forall. intros e He. destruct (trace_In _ _ He) as (c & Hin & _).
+  rewrite Forall_forall in H. apply H. apply (in_map fst) in Hin. exact Hin.
+Qed.
+
+(* ------------------------------------------------------------------ system level: any two configuration histories, any message *)
+
+Definition lookup_view (srv : pstate) (m : msg) : option hview :=
+  option_map (view srv) (lookup srv (msg_kind m) (msg_target m)).
+
+Lemma exchange_unfold cli srv m :
+  exchange cli srv m =
+  match m with
+  | MCall _ => exchange_call (global_flat cli) (global_flat srv) (lookup_view srv m)
+  | MPush _ => exchange_push (global_flat cli) (global_flat srv) (lookup_view srv m)
+  end.
+Proof. destruct m; reflexivity. Qed.
+
+Lemma global_names st sp : inv st sp -> NoDup (map p_name (global_flat st)).
+Proof. intros I. apply (inv_names _ _ I). apply (inv_len _ _ I). Qed.
+
+Lemma lookup_range st sp k hid h : inv st sp -> lookup st k hid = Some h -> h_cont h < length (s_conts st).
+Proof.
+  intros I. unfold lookup. destruct (find _ _) as [h'|] eqn:F.
+  - intros E. inversion E; subst. apply find_some in F as [Hin _].
+    pose proof (inv_handlers _ _ I) as F2.
+    clear -Hin F2. induction F2 as [|a b l l' (_ & _ & H3) _ IH]; [destruct Hin|].
+    destruct Hin as [<-|Hin]; auto.
+  - pose proof (inv_uc _ _ I) as U1. pose proof (inv_up _ _ I) as U2.
+    destruct k; intros E; [rewrite E in U1 | rewrite E in U2]; cbn in *.
+    + destruct (sp_unk_call sp); [apply U1 | contradiction].
+    + destruct (sp_unk_push sp); [apply U2 | contradiction].
+Qed.
+
+Lemma lookup_names st sp m hid hs hc :
+  inv st sp -> lookup_view st m = Some (hid, hs, hc) -> NoDup (map p_name hc).
+Proof.
+  intros I. unfold lookup_view. destruct (lookup st _ _) as [h|] eqn:L; [|discriminate].
+  cbn. unfold view. intros E. inversion E; subst. apply (inv_names _ _ I). eapply lookup_range; eassumption.
+Qed.
+
+Lemma hooks_once_lemma opsc opss cli srv m :
+  run opsc = Some cli -> run opss = Some srv ->
+  let r := exchange cli srv m in
+  NoDup (trace_of (r_cli_prh r ++ r_cli r)) /\ NoDup (trace_of (r_srv_prh r ++ r_srv r)).
+Proof.
+  intros Rc Rs. pose proof (run_inv _ _ Rc) as Ic. pose proof (run_inv _ _ Rs) as Is.
+  cbn zeta. rewrite exchange_unfold.
+  assert (Hc := global_names _ _ Ic). assert (Hs := global_names _ _ Is).
+  assert (Hh : forall hid hs hc, lookup_view srv m = Some (hid, hs, hc) -> NoDup (map p_name hc))
+    by (intros; eapply lookup_names; eassumption).
+  destruct m.
+  - destruct (exchange_call_shape (global_flat cli) (global_flat srv) (lookup_view srv (MCall hid)))
+      as (N1 & N2 & F1 & F2 & _). cbn zeta in *. split; apply trace_nodup.
+    + apply stages_nodupb_NoDup. exact N1.
+    + intros s c Hin. rewrite Forall_forall in F1. pose proof (F1 _ Hin) as E1. cbn [snd] in E1. rewrite E1. exact Hc.
+    + apply stages_nodupb_NoDup. exact N2.
+    + intros s c Hin. rewrite Forall_forall in F2. destruct (F2 _ Hin) as [E|(i & hs & E)]; cbn [snd] in E.
+      * rewrite E. exact Hs.
+      * eapply Hh. exact E.
+  - destruct (exchange_push_shape (global_flat cli) (global_flat srv) (lookup_view srv (MPush hid)))
+      as (N1 & N2 & F1 & F2 & _). cbn zeta in *. split; apply trace_nodup.
+    + apply stages_nodupb_NoDup. exact N1.
+    + intros s c Hin. rewrite Forall_forall in F1. pose proof (F1 _ Hin) as E1. cbn [snd] in E1. rewrite E1. exact Hc.
+    + apply stages_nodupb_NoDup. exact N2.
+    + intros s c Hin. rewrite Forall_forall in F2. destruct (F2 _ Hin) as [E|(i & hs & E)]; cbn [snd] in E.
+      * rewrite E. exact Hs.
+      * eapply Hh. exact E.
+Qed.
+
+Lemma hooks_stage_order_lemma cli srv m :
+  let r := exchange cli srv m in
+  StronglySorted ev_le (trace_of (r_cli r)) /\
+  Forall (fun e : event => In (snd e) (caller_seq m)) (trace_of (r_cli r)) /\
+  StronglySorted ev_le (trace_of (r_srv r)) /\
+  Forall (fun e : event => In (snd e) (callee_seq m)) (trace_of (r_srv r)) /\
+  Forall (fun e : event => snd e = PreReadHeader) (trace_of (r_cli_prh r ++ r_srv_prh r)).
+Proof.
+  cbn zeta. rewrite exchange_unfold. destruct m.
+  - destruct (exchange_call_shape (global_flat cli) (global_flat srv) (lookup_view srv (MCall hid)))
+      as (_ & _ & _ & _ & S1 & S2 & M1 & M2 & M3). cbn zeta in *.
+    repeat split.
+    + apply trace_sorted, increasingb_sorted, S1.
+    + apply trace_stages, all_inb_In, M1.
+    + apply trace_sorted, increasingb_sorted, S2.
+    + apply trace_stages, all_inb_In, M2.
+    + eapply Forall_impl; [|apply (trace_stages _ [PreReadHeader]), all_inb_In, M3].
+      cbn. intros e [H|[]]. symmetry. exact H.
+  - destruct (exchange_push_shape (global_flat cli) (global_flat srv) (lookup_view srv (MPush hid)))
+      as (_ & _ & _ & _ & S1 & S2 & M1 & M2 & M3). cbn zeta in *.
+    repeat split.
+    + apply trace_sorted, increasingb_sorted, S1.
+    + apply trace_stages, all_inb_In, M1.
+    + apply trace_sorted, increasingb_sorted, S2.
+    + apply trace_stages, all_inb_In, M2.
+    + eapply Forall_impl; [|apply (trace_stages _ [PreReadHeader]), all_inb_In, M3].
+      cbn. intros e [H|[]]. symmetry. exact H.
+Qed.
+
+(* the chain a matched handler's hooks walk, in terms of the configuration *)
+Lemma spec_lookup_chain sp k hid v :
+  spec_lookup sp k hid = Some v ->
+  exists chain, snd v = sp_left sp ++ chain ++ sp_right sp /\
+    ((exists hs, In (k, (fst (fst v), hs, chain)) (sp_handlers sp) /\ fst (fst v) = hid) \/
+     (forall e, In e (sp_handlers sp) -> spec_is k hid e = false) /\
+     exists hs, match k with KCall => sp_unk_call sp | KPush => sp_unk_push sp end = Some (fst (fst v), hs, chain)).
+Proof.
+  unfold spec_lookup. destruct (find (spec_is k hid) (sp_handlers sp)) as [[k' [[i hs] ch]]|] eqn:F.
+  - intros E. inversion E; subst; clear E. apply find_some in F as [Hin Hm].
+    unfold spec_is in Hm. cbn in Hm. apply andb_true_iff in Hm as [Hk Hi].
+    apply N.eqb_eq in Hi. subst.
+    assert (k' = k) by (destruct k', k; cbn in Hk; congruence). subst.
+    exists ch. cbn. split; [reflexivity|]. left. exists hs. split; [exact Hin | reflexivity].
+  - destruct (match k with KCall => sp_unk_call sp | KPush => sp_unk_push sp end) as [[[i hs] ch]|] eqn:U; [|discriminate].
+    cbn. intros E. inversion E; subst; clear E. exists ch. cbn. split; [reflexivity|]. right.
+    split; [intros e He; apply (find_none _ _ F e He) | exists hs; reflexivity].
+Qed.
+
+(* registration order and scope, stated on the configuration: every stage function that ran
+   walked either the global chain left ++ right or the matched handler's chain
+   left ++ groups ++ own ++ right, in list order, up to the first refusal *)
+Lemma hooks_registration_order_lemma opsc opss cli srv m :
+  run opsc = Some cli -> run opss = Some srv ->
+  let r := exchange cli srv m in
+  let spc := spec_of opsc in let sps := spec_of opss in
+  (forall s c, In (s, c) (r_cli_prh r ++ r_cli r) -> c = sp_left spc ++ sp_right spc) /\
+  (forall s c, In (s, c) (r_srv_prh r ++ r_srv r) ->
+     c = sp_left sps ++ sp_right sps \/
+     exists v, spec_lookup sps (msg_kind m) (msg_target m) = Some v /\ c = snd v) /\
+  (forall s c, In (s, c) (r_cli_prh r ++ r_cli r ++ r_srv_prh r ++ r_srv r) ->
+     exists rest, map (ev s) (impls s c) = fst (run_stage s c) ++ rest /\
+                  (vetoes s c = false -> rest = [])).
+Proof.
+  intros Rc Rs. pose proof (run_inv _ _ Rc) as Ic. pose proof (run_inv _ _ Rs) as Is.
+  cbn zeta. rewrite (exchange_refines _ _ _ _ m Ic Is).
+  split; [|split].
+  - intros s c Hin. destruct m; cbn [spec_exchange] in Hin.
+    + destruct (exchange_call_shape (spec_global (spec_of opsc)) (spec_global (spec_of opss)) (spec_lookup (spec_of opss) KCall hid))
+        as (_ & _ & F1 & _). cbn zeta in F1. rewrite Forall_forall in F1. apply (F1 _ Hin).
+    + destruct (exchange_push_shape (spec_global (spec_of opsc)) (spec_global (spec_of opss)) (spec_lookup (spec_of opss) KPush hid))
+        as (_ & _ & F1 & _). cbn zeta in F1. rewrite Forall_forall in F1. apply (F1 _ Hin).
+  - intros s c Hin. destruct m; cbn [spec_exchange msg_kind msg_target] in *.
+    + destruct (exchange_call_shape (spec_global (spec_of opsc)) (spec_global (spec_of opss)) (spec_lookup (spec_of opss) KCall hid))
+        as (_ & _ & _ & F2 & _). cbn zeta in F2. rewrite Forall_forall in F2.
+      destruct (F2 _ Hin) as [E|(i & hs & E)]; cbn [snd] in E; [left; exact E | right; eexists; split; [exact E | reflexivity]].
+    + destruct (exchange_push_shape (spec_global (spec_of opsc)) (spec_global (spec_of opss)) (spec_lookup (spec_of opss) KPush hid))
+        as (_ & _ & _ & F2 & _). cbn zeta in F2. rewrite Forall_forall in F2.
+      destruct (F2 _ Hin) as [E|(i & hs & E)]; cbn [snd] in E; [left; exact E | right; eexists; split; [exact E | reflexivity]].
+  - intros s c _. destruct (run_stage_prefix s c) as [rest E]. exists rest. split; [exact E|].
+    intros Hv. apply vetoes_false, verdict_zero_complete in Hv. rewrite Hv in E.
+    rewrite <- (app_nil_r (map (ev s) (impls s c))) in E at 1. apply app_inv_head in E. symmetry. exact E.
+Qed.
+
+Lemma hooks_scope_lemma opsc opss cli srv m :
+  run opsc = Some cli -> run opss = Some srv ->
+  let r := exchange cli srv m in let sps := spec_of opss in
+  forall e, In e (trace_of (r_srv_prh r ++ r_srv r)) ->
+    exists p, p_name p = fst e /\ p_impl p (snd e) = true /\
+      (In p (sp_left sps ++ sp_right sps) \/
+       exists v, spec_lookup sps (msg_kind m) (msg_target m) = Some v /\ In p (snd v)).
+Proof.
+  intros Rc Rs. cbn zeta. intros e He.
+  destruct (trace_In _ _ He) as (c & Hin & p & Hp & Hn & Hi).
+  destruct (hooks_registration_order_lemma _ _ _ _ m Rc Rs) as (_ & H2 & _). cbn zeta in H2.
+  exists p. split; [exact Hn|]. split; [exact Hi|].
+  destruct (H2 _ _ Hin) as [->|(v & Hv & ->)]; [left; exact Hp | right; exists v; auto].
+Qed.
+
+Lemma current_container_lemma cli srv m :
+  let r := exchange cli srv m in
+  Forall (current_ok (global_flat srv) (lookup_view srv m)) (r_srv_prh r ++ r_srv r).
+Proof.
+  cbn zeta. rewrite exchange_unfold. destruct m; [apply exchange_call_current | apply exchange_push_current].
+Qed.
+
+Lemma veto_blocks_handler_lemma cli srv m :
+  let r := exchange cli srv m in
+  (forall s c, In (s, c) (r_cli r ++ r_srv_prh r ++ r_srv r) ->
+     pre_handler s = true -> vetoes s c = true -> r_invoked r = []) /\
+  (r_invoked r = [] \/
+   exists hid hs hc, lookup_view srv m = Some (hid, hs, hc) /\ r_invoked r = [hid] /\ r_written r = true).
+Proof.
+  cbn zeta. rewrite exchange_unfold. destruct m; split;
+    first [apply call_veto_blocks | apply push_veto_blocks | apply call_invoked | apply push_invoked].
+Qed.
+
+Lemma veto_status_lemma cli srv m :
+  let r := exchange cli srv m in
+  (forall s c, In (s, c) (r_cli r) -> caller_status_stage s = true -> vetoes s c = true ->
+     r_status r = verdict_of s c /\ r_status r <> 0%Z) /\
+  (forall s c, In (s, c) (r_srv r) -> callee_status_stage s = true -> vetoes s c = true ->
+     vetoes PreReadHeader (global_flat cli) = false ->
+     vetoes PostReadReplyHeader (global_flat cli) = false ->
+     vetoes PreReadReplyBody (global_flat cli) = false ->
+     r_status r = verdict_of s c /\ r_status r <> 0%Z).
+Proof.
+  cbn zeta. rewrite exchange_unfold. destruct m; split;
+    first [apply call_caller_veto_status | apply push_caller_veto_status | apply call_callee_veto_status | idtac].
+  (* a PUSH has no callee stage that answers with a status *)
+  intros s c Hin Hs. exfalso. revert s c Hin Hs.
+  flow_cases (lookup_view srv (MPush hid)); intros s c Hin Hs; plan_member Hin; cbn in Hs; discriminate.
+Qed.
+
+Lemma prewrite_veto_lemma cli srv m :
+  let r := exchange cli srv m in
+  let pre := match m with MCall _ => PreWriteCall | MPush _ => PreWritePush end in
+  (vetoes pre (global_flat cli) = true ->
+     r_written r = false /\ r_srv_prh r = [] /\ r_srv r = [] /\ r_invoked r = [] /\
+     r_cli r = [(pre, global_flat cli)] /\
+     r_status r = verdict_of pre (global_flat cli) /\ r_status r <> 0%Z) /\
+  r_written r = negb (vetoes pre (global_flat cli)).
+Proof.
+  cbn zeta. rewrite exchange_unfold. destruct m; split;
+    first [apply call_prewrite_veto | apply push_prewrite_veto | apply call_written_iff | apply push_written_iff].
+Qed.
+
+(* [vetoes] is exactly "a hook of that stage on that chain fired and answered non-OK" *)
+Lemma vetoes_iff_hook_refused s c :
+  vetoes s c = true <->
+  exists pre v, fst (run_stage s c) = map (ev s) (pre ++ [v]) /\ In v c /\ p_impl v s = true /\
+                p_verdict v s <> 0%Z /\ p_verdict v s = verdict_of s c /\
+                (forall p, In p pre -> p_verdict p s = 0%Z).
+Proof.
+  split.
+  - intros H. apply vetoes_true in H. destruct (verdict_nonzero_source _ _ H) as (pre & v & H1 & H2 & H3 & H4 & H5).
+    exists pre, v. repeat split; auto. congruence.
+  - intros (pre & v & _ & _ & _ & Hn & He & _). apply vetoes_true. congruence.
+Qed.
